@@ -39,14 +39,34 @@ def same_obs(a, b):
     return False
 
 
+LEAKS = (("PDefLhs", "tco-def-lhs"), ("PSetLhs", "tco-def-lhs"), ("PIncludeNonLastFile", "tco-include-nonlast"))
+
+
+def leak_id(raw):
+    """Known finding a `site` path runs through (the first leaking position), or None."""
+    for q in raw.split("/"):
+        for name, fid in LEAKS:
+            if q == name:
+                return fid
+    return None
+
+
 def main(argv):
     c = Check("C09", argv)
+    # (T) the tail flag at every place where generator.go hands a sub-form to the compiler,
+    # regenerated from the current source
+    trc, tout = common.translate("tailsites", "TailSites.v")
+    table_break = None
+    if trc != 0:
+        table_break = tout[-2000:]
+        c.log("translator tailsites failed:\n" + tout[-1500:])
     c.proofs()
     c.trusted_base([
         "coq/Model/RefSemTco.v is hand-written: eval/apply are a copy of the reference evaluator RefSem.v (tied to the original by running both extracted evaluators on every case); eval_tco/apply_tco/tloop model generator.go's tail flag and the jump of GenerateCallBySymbol; both are tied to /repo by the correspondence run, not by a proof over the Go source",
         "the space claim on the real VM is measured (zygo.VerifTrace: high-water marks of the data, scope, address and loop stacks at depth 10 against 1000 / 100000 / 10^6), the theorem tail_space_constant is about the model's activation counter",
         "depths above 1000 are out of reach of the model (its store keeps every frame: quadratic); there the observable is compared with the depth-10 observable scaled by the closed form of the traced sum",
         "break/continue inside the arguments of a self tail call (compiled inline by the real code, as separate units by the model) are not generated",
+        "translator/cmd/tailsites (abstract execution of the Generate* functions over the two values of Generator.Tail; assumes every compiling method leaves the flag as found or cleared, which exits_ok checks on its own output) and coq/Model/TailSites.v chain_of (hand-written: which sites a sub-form position passes through) - tied by the `site` family: the number of goto 0 in the real bytecode of every position, every pair and sampled triples equals `jumps` of the generated table",
     ])
     cases = c.harness("c09")
     prop_fail, corr_fail, copy_fail = [], [], []
@@ -60,7 +80,7 @@ def main(argv):
         for k in ("counts", "info", "shapes"):
             c.coverage[k] = stats.get(k)
         # --- failures found by the harness itself (twin, space, deep runs, templates)
-        for f in (stats.get("failures") or []):
+        for f in (stats.get("failures") or []) + (stats.get("leak_failures") or []):
             prop_fail.append({"kind": "harness:" + f["kind"], "failure": f})
         # --- model side
         rc, out, exe = common.build_ocaml("C09")
@@ -73,7 +93,8 @@ def main(argv):
             for ln in open(cases):
                 a = ln.rstrip("\n").split("\t")
                 lines.append(a[0] + "\t" + a[1] + "\n")
-                lines_ref.append(a[0] + "\t" + re.sub(r"^fuel=\d+ rfuel=(\d+)", r"fuel=\1", a[1]) + "\n")
+                if not a[1].startswith("site path="):
+                    lines_ref.append(a[0] + "\t" + re.sub(r"^fuel=\d+ rfuel=(\d+)", r"fuel=\1", a[1]) + "\n")
                 impl[a[0]] = (a[1], a[2])
             mout = os.path.join(common.BUILD, "C09.model")
             rout = os.path.join(common.BUILD, "C09.refsem")
@@ -87,12 +108,31 @@ def main(argv):
                 for ln in open(rout):
                     b = ln.rstrip("\n").split("\t")
                     orig[b[0]] = b[1]
-                n = inconclusive = shadows = 0
+                n = inconclusive = shadows = nsite = 0
+                explained = set()
                 for ln in open(mout):
                     b = ln.rstrip("\n").split("\t")
                     cid, tco, ref, dev = b[0], b[1], b[2], b[3]
                     inp, im = impl[cid]
                     n += 1
+                    if inp.startswith("site path="):
+                        # family `site`: goto 0 count of the real bytecode / of the generated table / of the property's list
+                        nsite += 1
+                        raw = inp.split(" raw=")[1]
+                        if im == ref:
+                            if im != tco:
+                                corr_fail.append({"input": inp, "implementation": im, "model_from_generated_table": tco, "specification": ref,
+                                                  "note": "coq/Model/TailSites.v chain_of no longer describes how this position reaches the compiler"})
+                            continue
+                        leak = leak_id(raw)
+                        if leak and im == tco and c.known_finding(leak, "site:" + raw):
+                            explained.add(raw)
+                            continue
+                        prop_fail.append({"kind": "the number of self calls compiled as a jump (goto 0 in the real bytecode of f) differs from the property's tail positions",
+                                          "failure": {"shape": "site:" + raw, "depth": 3, "kind": "site-jumps", "implementation": im, "expected": ref},
+                                          "input": inp, "implementation": im, "specification": ref, "model_from_generated_table": tco,
+                                          "size": 2 + 2 * raw.count("/")})
+                        continue
                     if ref != orig.get(cid):
                         copy_fail.append({"input": inp, "copy_in_RefSemTco": ref, "original_RefSem": orig.get(cid)})
                     if "FUEL" in (tco, ref) or "UNSPEC" in (tco, ref) or im == "BUDGET" or tco.startswith("BADINPUT"):
@@ -112,6 +152,18 @@ def main(argv):
                     elif not same_obs(im, tco) or dev == "strictdiff":
                         corr_fail.append(rec)
                 c.coverage["compared"] = n
+                c.coverage["site_bytecode_cases_compared"] = nsite
+                # run-time failures of the `site` family on paths through a known leak whose extra jump the
+                # generated table explains (bytecode = table, table <> property's list)
+                keep = []
+                for f in prop_fail:
+                    fl = f.get("failure", {})
+                    sh = fl.get("shape", "")
+                    if str(f.get("kind", "")).startswith("harness:site-twin") and sh.startswith("site:") and sh[5:] in explained \
+                            and c.known_finding(leak_id(sh[5:]), sh):
+                        continue
+                    keep.append(f)
+                prop_fail = keep
                 c.coverage["traces_validated_against_impl"] = n
                 c.coverage["inconclusive"] = inconclusive
                 c.coverage["shadow_cases_classified"] = shadows
@@ -127,6 +179,8 @@ def main(argv):
         elif copy_fail:
             c.violation({"kind": "the copy of the reference evaluator in RefSemTco.v no longer agrees with RefSem.v",
                          "cases": copy_fail[:10], "count": len(copy_fail)}, no_input=True, tag="copy")
+        elif table_break:
+            c.violation({"kind": "translator tailsites failed: generator.go no longer has the shape it understands", "log": table_break}, no_input=True, tag="table")
         elif c.proof_break:
             c.violation({"kind": "proof obligation no longer checks", "detail": c.proof_break}, no_input=True, tag="proof")
     c.coverage["property_failures"] = len(prop_fail)
